@@ -24,13 +24,14 @@ inductive Kind where
 
 def inRange (a lo hi : Nat) : Bool := lo ≤ a && a ≤ hi
 
-/-- is (i,j) inside the 5×5 block of an alignment pattern of QR version v (size n)? -/
+/-- is (i,j) inside the 5×5 block of an alignment pattern of QR version v (size n)?  The centres are
+    all pairs (x, y) of Annex E coordinates except the three that coincide with finder patterns.
+    (The coordinates are at least 16 apart, so at most one x is within 2 of i.) -/
 def inAlignment (v n i j : Nat) : Bool :=
   let pos := annexE v
-  pos.any (fun x => pos.any (fun y =>
-    -- the three centres coinciding with finder patterns are skipped
-    !((x == 6 && y == 6) || (x == 6 && y == n - 7) || (x == n - 7 && y == 6))
-    && inRange i (x - 2) (x + 2) && inRange j (y - 2) (y + 2)))
+  match pos.find? (fun x => inRange i (x - 2) (x + 2)), pos.find? (fun y => inRange j (y - 2) (y + 2)) with
+  | some x, some y => !((x == 6 && y == 6) || (x == 6 && y == n - 7) || (x == n - 7 && y == 6))
+  | _, _ => false
 
 /-- region of module (i,j) (row, column) in a symbol of version v -/
 def kind (v : Int) (i j : Nat) : Kind :=
